@@ -558,10 +558,14 @@ class Program:
                     return full[0]
             key = (base_name(mo.group(2)), base_name(mo.group(1)), mo.group(3))
         else:
-            segs = strip_generics(name)
-            if len(segs) < 2:
-                return None
-            key = (None, segs[-2], segs[-1])
+            mo2 = re.search(r"<impl ([A-Za-z_][A-Za-z0-9_:]*)(?:<.*>)?>::([A-Za-z_][A-Za-z0-9_]*)$", name)
+            if mo2:
+                key = (None, mo2.group(1).split("::")[-1], mo2.group(2))
+            else:
+                segs = strip_generics(name)
+                if len(segs) < 2:
+                    return None
+                key = (None, segs[-2], segs[-1])
         hits = self.impl_index.get(key)
         if hits and len(hits) == 1:
             return hits[0]
